@@ -221,6 +221,7 @@ def setOne (U : Nat) (ov : Oracle × Validator) (fd : Feed) : Except VErr (Oracl
   let (o, v) := ov
   if !fd.enabled then .error .disabled
   else if fd.expectedProvider ≠ fd.provider then .error .provider
+  else if !fd.cfg.found then .error .notFound
   else if !fd.feedMatches then .error .feed
   else
     let p := maybeAdjust U fd
